@@ -4,6 +4,7 @@ use serde_json::{json, Value};
 use std::io::{self, BufRead, Write};
 
 mod driver;
+mod lcd;
 mod regs;
 mod rt;
 mod timer;
@@ -13,6 +14,7 @@ pub struct Ctx {
     pub timer: timer::TimerCtx,
     pub rt: rt::RtCtx,
     pub driver: driver::DriverCtx,
+    pub lcd: lcd::LcdCtx,
 }
 
 fn dispatch(ctx: &mut Ctx, req: &Value) -> Result<Value, String> {
@@ -23,6 +25,7 @@ fn dispatch(ctx: &mut Ctx, req: &Value) -> Result<Value, String> {
         c if c.starts_with("timer.") => timer::handle(&mut ctx.timer, c, req),
         c if c.starts_with("rt.") => rt::handle(&mut ctx.rt, c, req),
         c if c.starts_with("driver.") => driver::handle(&mut ctx.driver, c, req),
+        c if c.starts_with("lcd.") => lcd::handle(&mut ctx.lcd, c, req),
         _ => Err(format!("unknown cmd {cmd}")),
     }
 }
@@ -31,7 +34,7 @@ fn main() {
     let stdin = io::stdin();
     let stdout = io::stdout();
     let mut out = io::BufWriter::new(stdout.lock());
-    let mut ctx = Ctx { regs: regs::RegsCtx::default(), timer: timer::TimerCtx::default(), rt: rt::RtCtx::default(), driver: driver::DriverCtx::default() };
+    let mut ctx = Ctx { regs: regs::RegsCtx::default(), timer: timer::TimerCtx::default(), rt: rt::RtCtx::default(), driver: driver::DriverCtx::default(), lcd: lcd::LcdCtx::default() };
     for line in stdin.lock().lines() {
         let line = match line {
             Ok(l) => l,
